@@ -275,6 +275,10 @@ func (d *Dispatcher) addPeer(
 		pstats = ps
 	}
 
+	if b.Len() != uint(d.torrent.NumPieces()) {
+		return nil, fmt.Errorf(
+			"peer bitfield has %d bits, torrent has %d pieces", b.Len(), d.torrent.NumPieces())
+	}
 	p := newPeer(peerID, isPeerOrigin, b, messages, d.clk, pstats)
 	if _, ok := d.peers.LoadOrStore(peerID, p); ok {
 		return nil, errors.New("peer already exists")
@@ -494,7 +498,54 @@ func (d *Dispatcher) feed(p *peer) {
 	d.events.PeerRemoved(p.id, d.torrent.InfoHash())
 }
 
+// validate checks that a message received from a remote peer carries the body
+// its type announces and that the piece index in it exists, so that handlers
+// never dereference a missing body or index per-piece state out of range.
+func (d *Dispatcher) validate(msg *conn.Message) error {
+	var index int32
+	missingBody := false
+	switch m := msg.Message; m.Type {
+	case p2p.Message_ERROR:
+		if missingBody = m.Error == nil; !missingBody {
+			index = m.Error.Index
+		}
+	case p2p.Message_ANNOUCE_PIECE:
+		if missingBody = m.AnnouncePiece == nil; !missingBody {
+			index = m.AnnouncePiece.Index
+		}
+	case p2p.Message_PIECE_REQUEST:
+		if missingBody = m.PieceRequest == nil; !missingBody {
+			index = m.PieceRequest.Index
+		}
+	case p2p.Message_PIECE_PAYLOAD:
+		if missingBody = m.PiecePayload == nil || msg.Payload == nil; !missingBody {
+			index = m.PiecePayload.Index
+		}
+	case p2p.Message_CANCEL_PIECE:
+		if missingBody = m.CancelPiece == nil; !missingBody {
+			index = m.CancelPiece.Index
+		}
+	default:
+		return nil
+	}
+	if missingBody {
+		return fmt.Errorf("%s message has no body", msg.Message.Type)
+	}
+	if index < 0 || int(index) >= d.torrent.NumPieces() {
+		return fmt.Errorf(
+			"%s message: piece index %d out of bounds: torrent has %d pieces",
+			msg.Message.Type, index, d.torrent.NumPieces())
+	}
+	return nil
+}
+
 func (d *Dispatcher) dispatch(p *peer, msg *conn.Message) error {
+	if err := d.validate(msg); err != nil {
+		if msg.Payload != nil {
+			closers.Close(msg.Payload)
+		}
+		return err
+	}
 	switch msg.Message.Type {
 	case p2p.Message_ERROR:
 		d.handleError(p, msg.Message.Error)
